@@ -389,7 +389,7 @@ macro_rules! add_sorted_list {
 macro_rules! remove_sorted_list {
     ($list: expr, $id: expr) => {
         $list
-            .binary_search_by(|probe| probe.0.cmp(&$id))
+            .binary_search_by(|probe| $id.cmp(&probe.0))
             .ok()
             .map(|pos| $list.remove(pos))
     };
